@@ -120,6 +120,45 @@ func VFailFast() {
 	})
 }
 
+// Fail-fast with a live upstream: the producer never closes the input (a
+// long-lived source). Some element fails (assumed); the stage must still
+// deliver the results before the first failure, that error once, and close
+// both channels - at the failure, not when the input happens to end.
+func VFailFastOpen() {
+	n := vrt.Param("n", 2)
+	xs := vinputs(n)
+	m := v7first(&xs, n)
+	vrt.Assume(m < n)
+	got, nerr, calls := 0, 0, 0
+	in := make(chan int, vrt.Param("cap", 0))
+	vrt.Go("producer", func() {
+		for i := 0; i < n; i++ {
+			in <- xs[i]
+		}
+		// the input stays open
+	})
+	out, exx := v7stage(vctx(), in, &xs, n, false, &calls)
+	vrt.Go("consumer", func() {
+		for v := range out {
+			vrt.Assert("failfast-open.value", vrt.And(got < m, v == vrt.UF1("F", v7at(&xs, got))))
+			got++
+		}
+		vrt.Cover("failfast-open.values-closed")
+	})
+	vrt.Go("errors", func() {
+		for e := range exx {
+			vrt.Assert("failfast-open.error", vrt.All(nerr == 0, e == error(v7err{v7at(&xs, m)})))
+			nerr++
+		}
+		vrt.Cover("failfast-open.errors-closed")
+	})
+	vrt.Invariant("failfast-open.nothing-further", func() bool { return calls <= m+1 })
+	vrt.Final("failfast-open.complete", func() bool {
+		return vrt.All(got == m, nerr == 1, vrt.Closed(out), vrt.Closed(exx), vrt.LibExited(),
+			vrt.Exited("consumer"), vrt.Exited("errors"), calls == m+1)
+	})
+}
+
 // Try: every failing element yields exactly one error and no output, every
 // other element exactly its output, both streams in input order, both
 // channels closed when the input ends.
